@@ -57,12 +57,12 @@ func init() {
 	intrinsics["internal/bytealg.CountString"] = count
 	intrinsics["internal/bytealg.Equal"] = func(in *Interp, fr *frame, args []Value) Value {
 		a, b := in.byteSeq(args[0]), in.byteSeq(args[1])
-		return in.strEq(Str{a}, Str{b})
+		return in.strEq(Str{b: a}, Str{b: b})
 	}
 	index := func(in *Interp, fr *frame, args []Value) Value {
 		a, b := in.byteSeq(args[0]), in.byteSeq(args[1])
 		for i := 0; i+len(b) <= len(a); i++ {
-			if in.branch(in.strEq(Str{a[i : i+len(b)]}, Str{b})) {
+			if in.branch(in.strEq(Str{b: a[i : i+len(b)]}, Str{b: b})) {
 				return in.tt.BV(64, uint64(i))
 			}
 		}
@@ -71,7 +71,7 @@ func init() {
 	intrinsics["internal/bytealg.Index"] = index
 	intrinsics["internal/bytealg.IndexString"] = index
 	intrinsics["internal/bytealg.Compare"] = func(in *Interp, fr *frame, args []Value) Value {
-		a, b := Str{in.byteSeq(args[0])}, Str{in.byteSeq(args[1])}
+		a, b := Str{b: in.byteSeq(args[0])}, Str{b: in.byteSeq(args[1])}
 		tt := in.tt
 		lt := in.strLess(a, b, false)
 		eq := in.strEq(a, b)
@@ -100,7 +100,7 @@ func init() {
 		if buf.arr == nil {
 			return Str{}
 		}
-		return Str{in.bytesOfSlice(buf)}
+		return Str{b: in.bytesOfSlice(buf)}
 	}
 	intrinsics["(*strings.Builder).copyCheck"] = noop
 	intrinsics["internal/stringslite.Clone"] = func(in *Interp, fr *frame, args []Value) Value { return args[0] }
